@@ -1,0 +1,23 @@
+//go:build verif
+
+package layer
+
+import (
+	"os"
+
+	"github.com/containerd/stargz-snapshotter/metadata"
+	"github.com/hanwen/go-fuse/v2/fuse"
+)
+
+// Verification hook of property C02 (build tag "verif" only): exposes the attribute
+// conversion of the node layer to the correspondence harness under /verif. No behaviour change.
+
+// VerifEntryToAttrC02 runs entryToAttr and returns the filled fuse.Attr and the stable mode.
+func VerifEntryToAttrC02(ino uint64, e metadata.Attr) (fuse.Attr, uint32) {
+	var out fuse.Attr
+	st := entryToAttr(ino, e, &out)
+	return out, st.Mode
+}
+
+// VerifFileModeToSystemModeC02 exposes fileModeToSystemMode.
+func VerifFileModeToSystemModeC02(m os.FileMode) uint32 { return fileModeToSystemMode(m) }
